@@ -392,26 +392,7 @@ def linked_part(ctx) -> None:
             return
 
 
-CHAR_SCHEMA = [
-    ("type", 4, ("int", 16, "little")),
-    ("instance_id", 5, ("int", 2, "little")),
-    ("properties", 10, ("int", 2, "little")),
-    ("presentation_format", 12, ("bytes",)),
-    ("valid_range", 13, ("bytes",)),
-    ("step_value", 14, ("bytes",)),
-    ("valid_values", 17, ("bytes",)),
-    ("valid_values_range", 18, ("bytes",)),
-    ("user_descriptor", 11, ("bytes",)),
-]
-SVC_SCHEMA = [
-    ("type", 6, ("int", 16, "little")),
-    ("instance_id", 7, ("int", 2, "little")),
-    ("_characteristics", 20, ("seq_struct", [("characteristic", 19, ("struct", CHAR_SCHEMA))])),
-    ("properties", 15, ("int", 2, "little")),
-    ("linked_services", 16, ("seq_int", 2)),
-]
-ACC_SCHEMA = [("instance_id", 26, ("int", 2, "little")), ("_services", 22, ("seq_struct", [("service", 21, ("struct", SVC_SCHEMA))]))]
-DB_SCHEMA = [("_accessories", 24, ("seq_struct", [("accessory", 25, ("struct", ACC_SCHEMA))]))]
+from vf.ref.coapdb import ACC_SCHEMA, CHAR_SCHEMA, DB_SCHEMA, SVC_SCHEMA  # noqa: E402,F401
 
 
 def coap_db_part(ctx) -> None:
